@@ -334,20 +334,17 @@ def logonMsgX (s : Sess) (reset : Bool) (nx : Option Int) : OutMsg :=
   mkOut "A" ([(108, toString s.hb)] ++ (if reset then [(141, "Y")] else [])
              ++ (if s.cfg.applVer.isEmpty then [] else [(1137, s.cfg.applVer)]) ++ nxTag nx)
 
-/-- tag 789 of a Logon sent on our own account (`inReplyTo = nil`: connect, ResetSeqTime): the inbound number we expect next —
-    `NextTargetMsgSeqNum()`, or 1 when the Logon carries 141=Y (`prepMessageForSend` resets the store on its way out).
-    After `fix:` 9b6c1a0; before, `NextTargetMsgSeqNum() + 1` in both cases (`nxOwnOrig`). -/
-def nxOwn (s : Sess) (reset : Bool) : Option Int :=
-  if s.cfg.nextExpected then some (if reset then 1 else s.store.target) else none
-
-def nxOwnOrig (s : Sess) : Option Int := if s.cfg.nextExpected then some (s.store.target + 1) else none
+/-- tag 789 of a Logon sent on our own account (`inReplyTo = nil`: connect, ResetSeqTime): `NextTargetMsgSeqNum() + 1`, read
+    before `prepMessageForSend` resets the store for a Logon carrying 141=Y (session.go l.203–205; the code as it is — see
+    notes/proofs_b_nx.md, observation 1) -/
+def nxOwn (s : Sess) : Option Int := if s.cfg.nextExpected then some (s.store.target + 1) else none
 
 /-- tag 789 of the acceptor's reply: only when the Logon answered carries a readable 789; `NextTargetMsgSeqNum() + 1` —
     the number expected once the Logon being answered is counted -/
 def nxReply (s : Sess) (m : InMsg) : Option Int :=
   if s.cfg.nextExpected && (peerNext m).isSome then some (s.store.target + 1) else none
 
-def logonMsg (s : Sess) (reset : Bool) : OutMsg := logonMsgX s reset (nxOwn s reset)
+def logonMsg (s : Sess) (reset : Bool) : OutMsg := logonMsgX s reset (nxOwn s)
 
 /-- the Logon answering `m` -/
 def logonMsgRe (s : Sess) (reset : Bool) (m : InMsg) : OutMsg := logonMsgX s reset (nxReply s m)
@@ -739,57 +736,72 @@ theorem Fields.has_of_get? (f : Fields) (t : Nat) (v : String) (h : f.get? t = s
     have h1 : (p.1 == t) = true := List.find?_some (p := fun x : Nat × String => x.1 == t) hf
     exact List.any_eq_true.2 ⟨p, List.mem_of_find?_eq_some hf, h1⟩
 
-/-- handleLogon's evaluation of the peer's tag 789 (only when the Logon has no tag 141 at all): `ns` is our next outbound
-    number the 789 is compared with — after a reset the Logon caused, before our reply.  A readable 789 different from
-    `ns` (it is below: a Logon whose 789 is above has been refused before, `logonRefuses`): a gap fill from the peer's 789 to
-    the number we use next, with and without persistence — nothing is replayed.
-    (After `fix:` eef4b78, fb22495, 9431a2e; the code as it was is `Qfx/Model/SessionNxOrig.lean`.) -/
-def nxEval (s : Sess) (m : InMsg) (ns : Int) : Sess :=
+/-- handleLogon's evaluation of the peer's tag 789 (session.go l.581–596; only when the Logon has no tag 141 at all): `ns` is
+    `nextSenderMsgNumAtLogonReceived` — our next outbound number when the Logon ARRIVED: before a reset the Logon causes,
+    before our reply.  A readable 789 different from `ns`: with persistence `generateSequenceReset(789, ns + 1, msg)` — nothing
+    is replayed, the store is not read; without, the error `targetTooHigh{789, ns}`.  (The code as it is: notes/proofs_b_nx.md,
+    observations 2–5.) -/
+def nxEval (s : Sess) (m : InMsg) (ns : Int) : Sess × Option Rej :=
   if s.cfg.nextExpected && !(m.f.has 141) then
     match peerNext m with
-    | some n => if n != ns then enqueueAndSend s (gapFillRe s m n s.store.sender) else s
-    | none => s
-  else s
+    | some n =>
+      if n != ns then
+        if s.cfg.persist then (enqueueAndSend s (gapFillRe s m n (ns + 1)), none)
+        else (s, some (.tooHigh n ns))
+      else (s, none)
+    | none => (s, none)
+  else (s, none)
 
 /-- the end of handleLogon: arm the peer timer, notify, the peer's 789, gap check, consume the Logon's number -/
 def logonFinish (s : Sess) (m : InMsg) (ns : Int) : Sess × Option LogonErr :=
-  let s := nxEval (((s.setSentReset false).emit (.armPeer (1200 * s.hb))).emit .onLogon) m ns
-  match checkTooHigh s m with
-  | some r => (s, some (.rej r))
-  | none => (incrTarget s, none)
+  match nxEval (((s.setSentReset false).emit (.armPeer (1200 * s.hb))).emit .onLogon) m ns with
+  | (s, some r) => (s, some (.rej r))
+  | (s, none) =>
+    match checkTooHigh s m with
+    | some r => (s, some (.rej r))
+    | none => (incrTarget s, none)
 
 def logonResetFlag (m : InMsg) : Bool := match getBool m 141 with | .val b => b | _ => false
 
-/-- is the Logon refused (RejectLogon) because its 789 is above our next outbound number?  The acceptor's
-    `sendLogonInReplyTo(_, msg)` does that whenever it is about to answer; the initiator when the Logon has no tag 141
-    (after `fix:` 732dac2; before, an initiator never refused) -/
+/-- does the acceptor's `sendLogonInReplyTo(_, msg)` return RejectLogon instead of answering (peer's 789 above our next outbound
+    number, session.go l.195–198)?  An initiator never refuses. -/
 def logonRefuses (s : Sess) (m : InMsg) (flag : Bool) : Bool :=
-  (if s.cfg.initiator then !(m.f.has 141) else !(flag && s.sentReset && s.st.loggedOn)) && nxRefuses s m
+  !s.cfg.initiator && !(flag && s.sentReset && s.st.loggedOn) && nxRefuses s m
 
-/-- what handleLogon has done by then: an acceptor has adopted the peer's HeartBtInt -/
+/-- what handleLogon has done by then: the acceptor has adopted the peer's HeartBtInt -/
 def logonRefused (s : Sess) (m : InMsg) : Sess :=
   if !s.cfg.initiator && !s.cfg.hbOverride then (match getInt m 108 with | .val h => s.setHb h | _ => s) else s
 
-/-- handleLogon once the Logon has passed the checks: the acceptor's reply (or the refusal), then `logonFinish` with our
-    next outbound number as it is now -/
-def logonTail (s : Sess) (m : InMsg) : Sess × Option LogonErr :=
+/-- handleLogon once the Logon has passed the checks: the acceptor's reply (or its refusal), then `logonFinish` -/
+def logonTail (s : Sess) (m : InMsg) (ns : Int) : Sess × Option LogonErr :=
   if logonRefuses s m (logonResetFlag m) then (logonRefused s m, some (.rej .rejectLogon))
-  else logonFinish (logonReply s m (logonResetFlag m)) m s.store.sender
+  else logonFinish (logonReply s m (logonResetFlag m)) m ns
+
+/-- the configurations in which the evaluation of the peer's tag 789 never ends in an error: the option off, or message
+    persistence on (without persistence a 789 different from our number is reported as `targetTooHigh{789, our outbound number}`) -/
+def NxNoErr (cfg : Cfg) : Prop := cfg.nextExpected = false ∨ cfg.persist = true
+
+theorem nxEval_noErr (s : Sess) (m : InMsg) (ns : Int) (h : NxNoErr s.cfg) : (nxEval s m ns).2 = none := by
+  unfold nxEval
+  rcases h with h | h
+  · rw [h]; rfl
+  · rw [h]; simp only [if_true]; repeat' split
+    all_goals rfl
 
 /-! the option off (`EnableNextExpectedMsgSeqNum=N`, the default): nothing of the above happens -/
-theorem nxEval_off (s : Sess) (m : InMsg) (ns : Int) (h : s.cfg.nextExpected = false) : nxEval s m ns = s := by
+theorem nxEval_off (s : Sess) (m : InMsg) (ns : Int) (h : s.cfg.nextExpected = false) : nxEval s m ns = (s, none) := by
   unfold nxEval; rw [h]; rfl
 theorem logonRefuses_off (s : Sess) (m : InMsg) (flag : Bool) (h : s.cfg.nextExpected = false) : logonRefuses s m flag = false := by
   unfold logonRefuses; rw [nxRefuses_off s m h, Bool.and_false]
-theorem logonTail_off (s : Sess) (m : InMsg) (h : s.cfg.nextExpected = false) :
-    logonTail s m = logonFinish (logonReply s m (logonResetFlag m)) m s.store.sender := by
+theorem logonTail_off (s : Sess) (m : InMsg) (ns : Int) (h : s.cfg.nextExpected = false) :
+    logonTail s m ns = logonFinish (logonReply s m (logonResetFlag m)) m ns := by
   unfold logonTail; rw [logonRefuses_off s m _ h]; rfl
-theorem nxOwn_off (s : Sess) (r : Bool) (h : s.cfg.nextExpected = false) : nxOwn s r = none := by unfold nxOwn; rw [h]; rfl
+theorem nxOwn_off (s : Sess) (h : s.cfg.nextExpected = false) : nxOwn s = none := by unfold nxOwn; rw [h]; rfl
 theorem nxReply_off (s : Sess) (m : InMsg) (h : s.cfg.nextExpected = false) : nxReply s m = none := by unfold nxReply; rw [h]; rfl
 
-def handleLogon (s : Sess) (m : InMsg) : Sess × Option LogonErr :=
-  if s.cfg.bs == 5 && !(m.f.has 1137) then (s, some .other) else
-  let s := if !s.cfg.initiator && s.cfg.refreshOnLogon then s.emit .refresh else s
+def handleLogon (s0 : Sess) (m : InMsg) : Sess × Option LogonErr :=
+  if s0.cfg.bs == 5 && !(m.f.has 1137) then (s0, some .other) else
+  let s := if !s0.cfg.initiator && s0.cfg.refreshOnLogon then s0.emit .refresh else s0
   match verifyAppImpl s m with
   | (s, some r) => (s, some (.rej r))
   | (s, none) =>
@@ -797,7 +809,7 @@ def handleLogon (s : Sess) (m : InMsg) : Sess × Option LogonErr :=
     let s := if resetStore then dropAndReset s else s
     match verifySelect s m false true false with
     | (s, some r) => (s, some (.rej r))
-    | (s, none) => logonTail s m
+    | (s, none) => logonTail s m s0.store.sender      -- (nextSenderMsgNumAtLogonReceived, read before everything else)
 
 def inSessionFixMsgIn (s : Sess) (m : InMsg) : Sess × SState :=
   let k := kindOf m
